@@ -215,6 +215,8 @@ def _return_value_on_path(fn, path):
                     val = "%s(%s, %s)" % (rv[1], fn.sym(rv[2]), fn.sym(rv[3]))
                 elif rv[0] == "un":
                     val = "%s(%s)" % (rv[1], fn.sym(rv[2]))
+                elif rv[0] in ("ref", "raw"):
+                    val = "&" + fn.sym(rv[2])
                 else:
                     val = rv[0]
         t = fn.term(b)
